@@ -380,6 +380,10 @@ pub struct Txn {
     /// `value` (then it recovers): (value, count)
     #[serde(default)]
     pub rng_stuck: Option<(u32, u16)>,
+    /// nb: the radio answers the transmit request with a response that is neither an error nor Txing / TxDone
+    /// (1 = Idle, 2 = Rxing): it declined the request
+    #[serde(default)]
+    pub nb_tx_declined: u8,
 }
 
 #[derive(Clone, Debug, PartialEq, Eq, Serialize, Deserialize)]
@@ -588,6 +592,11 @@ fn simplify_txn(t: &Txn) -> Vec<Txn> {
     if t.alt_identity {
         let mut c = t.clone();
         c.alt_identity = false;
+        out.push(c);
+    }
+    if t.nb_tx_declined != 0 {
+        let mut c = t.clone();
+        c.nb_tx_declined = 0;
         out.push(c);
     }
     if let Some((v, k)) = t.rng_stuck {
